@@ -19,6 +19,7 @@ INVARIANT Delivered
 INVARIANT InOrder
 INVARIANT HwmSound
 INVARIANT SkippedExact
+INVARIANT MidNoHiddenGap
 INVARIANT LateIsLate
 INVARIANT StableExposed
 INVARIANT OverdueSkipped
